@@ -86,6 +86,7 @@ func factsC20(r *Repo) []Fact {
 	out = append(out, factsC20Wf(r)...)
 	out = append(out, factsC20Keys(r)...)
 	out = append(out, factsC20Static(r)...)
+	out = append(out, factsC20Dup(r)...)
 	out = append(out, transC20(r)...)
 	return out
 }
